@@ -194,6 +194,69 @@ func extractC13() *lean {
 	}
 	l.def("transactionHelperShape", "List String", leanStrList(shape), shape)
 
+	// ---- Create: where is the "subject already exists" check made?
+	inside := false
+	var outside []string
+	if fd := c13Method(mgr, "SqlManager", "Create"); fd != nil {
+		isCheck := func(c *ast.CallExpr) string {
+			f := exprString(c.Fun)
+			for _, suffix := range []string{".FindBySubject", ".SubjectExists", ".Exists", ".ListDIDs"} {
+				if strings.HasSuffix(f, suffix) {
+					return f
+				}
+			}
+			return ""
+		}
+		var walk func(n ast.Node, inTx bool)
+		walk = func(n ast.Node, inTx bool) {
+			ast.Inspect(n, func(m ast.Node) bool {
+				c, ok := m.(*ast.CallExpr)
+				if !ok {
+					return true
+				}
+				if exprString(c.Fun) == "r.transactionHelper" && !inTx {
+					for _, a := range c.Args {
+						if fl, ok := a.(*ast.FuncLit); ok {
+							// the check must be the tx-bound one and lead to ErrSubjectAlreadyExists
+							returnsExists := false
+							ast.Inspect(fl, func(k ast.Node) bool {
+								if r, ok := k.(*ast.ReturnStmt); ok {
+									for _, e := range r.Results {
+										if exprString(e) == "ErrSubjectAlreadyExists" {
+											returnsExists = true
+										}
+									}
+								}
+								return true
+							})
+							ast.Inspect(fl, func(k ast.Node) bool {
+								if cc, ok := k.(*ast.CallExpr); ok && exprString(cc.Fun) == "NewDIDManager().FindBySubject" && returnsExists {
+									if inner, ok := cc.Fun.(*ast.SelectorExpr); ok {
+										if ctor, ok := inner.X.(*ast.CallExpr); ok && len(ctor.Args) == 1 && exprString(ctor.Args[0]) == "tx" {
+											inside = true
+										}
+									}
+								}
+								return true
+							})
+						}
+					}
+					return false
+				}
+				if f := isCheck(c); f != "" && !inTx {
+					outside = append(outside, f)
+				}
+				return true
+			})
+		}
+		walk(fd.Body, false)
+	}
+	if outside == nil {
+		outside = []string{}
+	}
+	l.def("createChecksSubjectInsideTransaction", "Bool", c13Bool(inside), inside)
+	l.def("createSubjectChecksOutsideTransaction", "List String", leanStrList(outside), outside)
+
 	// ---- deleteUncommittedChange: deletes the version, and the DID when the change created it
 	delVersion, delDID := false, false
 	if fd := funcDecl(mgr, "deleteUncommittedChange"); fd != nil {
